@@ -9,6 +9,21 @@ from checks import disrupt_common as dc
 METHODS = dc.METHODS
 
 
+def catalog(order=("large", "small", "medium")):
+    """world.DefaultCatalog() (small 2 cpu $0.100, medium 4 cpu $0.200, large 8 cpu $0.400; on-demand and spot in two zones), but NOT
+    in price order and with the offerings not in price order either: a sort-in-place of the provider's slices shows."""
+    spec = {"small": (2000, 4096, 100), "medium": (4000, 8192, 200), "large": (8000, 16384, 400)}
+    out = []
+    for name in order:
+        cpu, mem, price = spec[name]
+        out.append({"name": name, "cpu": cpu, "memMi": mem, "offerings": [
+            {"zone": "zone-b", "ct": "on-demand", "price": price, "available": True},
+            {"zone": "zone-a", "ct": "spot", "price": price * 6 // 10, "available": True},
+            {"zone": "zone-a", "ct": "on-demand", "price": price, "available": True},
+            {"zone": "zone-b", "ct": "spot", "price": price * 7 // 10, "available": True}]})
+    return out
+
+
 # ------------------------------------------------------------------ base cluster of Frame.tla's behaviours
 def frame_base():
     """n1, n2, n3: medium nodes (4 cpu) in one pool; p1 on n1 and p2 on n2 share a host port (they can never share a node),
@@ -60,7 +75,9 @@ def beh_scenario(beh, idx):
             steps.append({"a": "Tick", "d": 1})     # (NodeClaim creation itself is outside both frames)
         else:
             raise ValueError("unknown Frame.tla step %r" % st)
-    return dc.scenario("beh:%d" % idx, pools, nodes, pods, [], steps, {"kind": "beh", "idx": idx})
+    sc = dc.scenario("beh:%d" % idx, pools, nodes, pods, [], steps, {"kind": "beh", "idx": idx})
+    sc["catalog"] = catalog()
+    return sc
 
 
 # ------------------------------------------------------------------ decisions with many consecutive simulations
@@ -147,7 +164,9 @@ def rich_scenario(rng, name):
                 p["node"] = rng.choice(names)
                 steps.append({"a": "SetPod", "pod": p})
     opts = {"preferIgnore": rng.random() < 0.2, "spotToSpot": rng.random() < 0.3}
-    return dc.scenario(name, pools, nodes, pods, [], steps, {"kind": "rich"}, options=opts)
+    sc = dc.scenario(name, pools, nodes, pods, [], steps, {"kind": "rich"}, options=opts)
+    sc["catalog"] = catalog(rng.choice([("large", "small", "medium"), ("medium", "large", "small"), ("large", "medium", "small")]))
+    return sc
 
 
 # ------------------------------------------------------------------ summaries
